@@ -187,6 +187,7 @@ fn trailing(kind: usize, n: usize, other: &[u8], r: &mut StdRng) -> Vec<u8> {
 /// C06: exact end of stream with arbitrary trailing data.
 pub fn scn_trailing(o: &Opts, tr: &mut Tr, prop: &str) {
     let mut r = gen::rng(o.seed, 606);
+    bulk_decode(o, tr, prop, &mut gen::rng(o.seed, 6060), 2000, 20000);
     let srcs = sources(o, &mut r, false);
     let mut n = 0;
     for s in &srcs {
@@ -221,6 +222,7 @@ pub fn scn_trailing(o: &Opts, tr: &mut Tr, prop: &str) {
 /// C07: suspend/resume anywhere. Valid and invalid streams; equivalence with the single-call run.
 pub fn scn_schedules(o: &Opts, tr: &mut Tr, prop: &str) {
     let mut r = gen::rng(o.seed, 707);
+    bulk_decode(o, tr, prop, &mut gen::rng(o.seed, 7070), 3000, 30000);
     let srcs = sources(o, &mut r, true);
     let budgets = [
         Budget::Unlimited,
@@ -392,6 +394,7 @@ pub fn scn_total(o: &Opts, tr: &mut Tr, prop: &str) {
 /// C08: writes stay inside the granted window (geometry sweep), limits of the vector helpers.
 pub fn scn_window(o: &Opts, tr: &mut Tr, prop: &str) {
     let mut r = gen::rng(o.seed, 808);
+    bulk_decode(o, tr, prop, &mut gen::rng(o.seed, 8080), 2000, 20000);
     let srcs = sources(o, &mut r, true);
     for s in &srcs {
         let n = s.p.len();
@@ -437,6 +440,7 @@ pub fn scn_window(o: &Opts, tr: &mut Tr, prop: &str) {
 /// C13: streaming inflate protocol over random call sequences and canonical loops.
 pub fn scn_inflate_protocol(o: &Opts, tr: &mut Tr, prop: &str) {
     let mut r = gen::rng(o.seed, 1313);
+    bulk_decode(o, tr, prop, &mut gen::rng(o.seed, 13130), 2000, 20000);
     let srcs = sources(o, &mut r, true);
     let mut idx = 0;
     for s in &srcs {
@@ -523,5 +527,54 @@ pub fn scn_genstreams(o: &Opts, tr: &mut Tr, prop: &str) {
         if !big {
             drive_inflate(tr, 3, &z, fmt, &gen::chunks("fixed1", z.len(), &mut r), &[1, 2], false, &mut r);
         }
+    }
+}
+
+/// Cheap exploration for the decoder side: many more (stream, schedule) pairs are executed; a case
+/// is written out (and then judged by TLC) only if the harness sees something off: the run did not
+/// end in Done with exactly the plaintext and exactly the stream length consumed.
+pub fn bulk_decode(o: &Opts, tr: &mut Tr, prop: &str, r: &mut StdRng, n_quick: usize, n_thorough: usize) {
+    let n = if o.thorough { n_thorough } else { n_quick };
+    let kinds = ["text", "rand", "alpha4", "zeros", "period7", "runs", "mixed", "xx", "planted300", "litmatch"];
+    let budgets = [
+        Budget::Unlimited,
+        Budget::Random(vec![0, 1, 2, usize::MAX]),
+        Budget::Random(vec![1, 2, 3, 257, 258, 259, 260]),
+        Budget::Fixed(259),
+        Budget::Random(vec![1, 5, 100, 5000]),
+        Budget::Random(vec![258, 259, 1000]),
+    ];
+    for i in 0..n {
+        let kind = kinds[i % kinds.len()];
+        let size = match i % 7 { 0 => r.gen_range(0..20), 1 => r.gen_range(20..400), 2 | 3 => r.gen_range(400..5000), 4 => r.gen_range(5000..40000),
+                                 5 => r.gen_range(32000..34000), _ => r.gen_range(0..2000) };
+        let d = gen::data(kind, size, r);
+        let zl = i % 2 == 0;
+        let cfg = Cfg { zlib: zl, level: [0u8, 1, 2, 6, 9][i % 5], strat: [0usize, 0, 0, 4, 2, 3, 1][i % 7], wbits: 15, api: "params" };
+        let mut z = make_stream(&d, &cfg, i % 3 == 1, r);
+        let exact = z.len();
+        let trail = if i % 5 == 4 { r.gen_range(1..9) } else { 0 };
+        for _ in 0..trail { z.push(r.gen()); }
+        let bf = base_flags(zl);
+        tr.hold();
+        tr.case(&format!("bulk-{}-{}-{}", i, kind, size), prop, json!({"zlen": z.len(), "plen": d.len()}));
+        tr.ev(stream_event(&z, Some(&d), zl, json!({})));
+        let b = &budgets[i % budgets.len()];
+        let ch = gen::chunks(["rand", "fixed1", "rand", "fixed3", "all"][i % 5], z.len(), r);
+        let mut sus = false;
+        let chk = |res: &DecResult| -> bool {
+            !(res.status == Some(miniz_oxide::inflate::TINFLStatus::Done) && res.out == d && res.consumed == exact)
+        };
+        match i % 4 {
+            0 => { let res = drive_flat(tr, 1, &z, bf, &ch, b, d.len() + 1, false, true, r); sus |= chk(&res); }
+            1 => { let res = drive_ring(tr, 1, &z, bf, &ch, b, 32768, true, r); sus |= chk(&res); }
+            2 => { let off = r.gen_range(0..300); let res = drive_flat_off(tr, 1, &z, bf, &ch, b, off + d.len() + 1 + r.gen_range(0..2), off, false, true, r); sus |= chk(&res); }
+            _ => {
+                let fmt = if zl { DataFormat::Zlib } else { DataFormat::Raw };
+                let res = drive_inflate(tr, 1, &z, fmt, &ch, &[[1usize, 2, 3][i % 3], 64, 1000, 40000][..(1 + i % 4)], false, r);
+                sus |= !(res.out == d && res.consumed == exact);
+            }
+        }
+        tr.release(sus);
     }
 }
